@@ -7,7 +7,7 @@ import BindgenModel.Model.LayoutRegions
 * `lay blob <size> <align> <ffi 0|1>` → `<type> <size> <align>`
 * `lay comp union=0|1 layout=S,A|- pattr=0|1 ovirt=0|1 vptr=0|1 opaque=0|1 fwd=0|1 zs=0|1 copy=0|1
    force=0|1 ptr=N untagged=0|1 style=w|m u64a=N bases=-|S,A;-;…
-   fields=-|d:S,A|-:OFF|-:ES,EA,LEN|-,LEN|-;u:NTH:S,A:BITSEND;…`
+   fields=-|d:S,A|-:OFF|-:ES,EA,LEN|-,LEN|-;u:NTH:S,A:BITSEND:STARTBITS|-;…`
   → `emit <struct|union> packed=-|N align=-|N fields=<name>:<size>:<align>:<blob|->,… ispacked=0|1 inexact=0|1 reprc <size> <align> offs=<idx>:<off>,…`
   or `emit panic` / `emit … reprc reject`.
 -/
@@ -46,12 +46,16 @@ def parseField (s : String) : Option CField :=
     | _, _, _ => none
   | ["u", nth, lay] =>
     match nth.toNat?, parseLayout lay with
-    | some n, some (some l) => some (.unit n l (8 * l.size))
+    | some n, some (some l) => some (.unit n l (8 * l.size) none)
     | _, _ => none
   | ["u", nth, lay, e] =>
     match nth.toNat?, parseLayout lay, e.toNat? with
-    | some n, some (some l), some e => some (.unit n l e)
+    | some n, some (some l), some e => some (.unit n l e none)
     | _, _, _ => none
+  | ["u", nth, lay, e, st] =>
+    match nth.toNat?, parseLayout lay, e.toNat?, parseOptNat st with
+    | some n, some (some l), some e, some st => some (.unit n l e st)
+    | _, _, _, _ => none
   | _ => none
 
 def parseList {α} (f : String → Option α) (s : String) : Option (List α) :=
@@ -73,7 +77,10 @@ def renderAgg (r : RustAgg) : String :=
 
 def renderLayout (l : RLayout) : String :=
   toString l.size ++ " " ++ toString l.align ++ " offs=" ++
-    (let u := l.userOffsets; if u.isEmpty then "-" else ",".intercalate (u.map fun (i, o) => toString i ++ ":" ++ toString o))
+    (let u := l.userOffsets; if u.isEmpty then "-" else ",".intercalate (u.map fun (i, o) => toString i ++ ":" ++ toString o)) ++
+    " uoffs=" ++
+    (let u := l.offsets.filterMap fun (n, o) => match n with | .unit k => some (toString k ++ ":" ++ toString o) | _ => none
+     if u.isEmpty then "-" else ",".intercalate u)
 
 def handleComp (toks : List String) : String :=
   match (kv toks "layout").bind parseLayout, (kv toks "bases").bind (parseList parseLayout),
